@@ -115,6 +115,23 @@ mod harness {
         kani::cover!(true);
     }
 
+    /// the cached "is UTF-8" flag (decides whether bytes may be viewed as a string: std.decodeUTF8, base64Decode, bytes -> str casts):
+    /// set exactly for well-formed UTF-8, for every payload of one or two bytes; the cached answer equals the first one
+    #[kani::proof]
+    #[kani::unwind(6)]
+    fn h_check_utf8() {
+        let bytes: [u8; 2] = kani::any(); let one: bool = kani::any();
+        let a = if one { Inner::new_bytes(&bytes[..1]) } else { Inner::new_bytes(&bytes) };
+        // RFC 3629 for <= 2 bytes: ASCII bytes, or one 2-byte sequence C2..DF 80..BF
+        let ascii = |b: u8| b < 0x80;
+        let want = if one { ascii(bytes[0]) } else { (ascii(bytes[0]) && ascii(bytes[1])) || (bytes[0] >= 0xC2 && bytes[0] <= 0xDF && bytes[1] >= 0x80 && bytes[1] <= 0xBF) };
+        let first = Inner::check_utf8(&a);
+        assert!(first == want, "obligation: a byte payload is accepted as a string exactly when it is well-formed UTF-8 (0x80..0xBF alone, C0/C1, truncated sequences are not)");
+        assert!(Inner::check_utf8(&a) == first, "obligation: the cached answer equals the computed one");
+        mem::drop(a);
+        kani::cover!(one && bytes[0] == 0x80); kani::cover!(!one && want && bytes[0] >= 0xC2);
+    }
+
     /// canonicity and unpooling: two interned values are == iff their contents are equal; the pool holds one entry
     /// per distinct live content; dropping the last handle removes the entry; a failed bytes->str cast leaks nothing
     #[kani::proof]
